@@ -192,6 +192,9 @@ pub fn check(c: &Case14, st: &mut Stats, bin: &std::path::Path, scratch: &std::p
         if long && !matches!(fp.kind, Kind::Cat | Kind::CopyOut(64)) {
             continue;
         }
+        if c.text.len() > 600_000 && fp.kind == Kind::Cat {
+            continue;
+        }
         let (want_out, want_err) = expected(fp.kind, &c.text);
         // the closed form must agree with the reference interpreter (harness sanity)
         if !long {
@@ -294,9 +297,9 @@ fn short_text() -> BoxedStrategy<Case14> {
 }
 
 /// long lines with multi-byte characters straddling power-of-two byte offsets
-fn long_text() -> BoxedStrategy<Case14> {
+fn long_text(huge: bool) -> BoxedStrategy<Case14> {
     (
-        prop::sample::select(vec![4096usize, 8192, 65536, 131072]),
+        prop::sample::select(if huge { vec![1usize << 20, 1 << 21] } else { vec![4096usize, 8192, 65536, 131072] }),
         0usize..4,
         prop::sample::select(vec!['é', '한', '😀', '\u{7ff}', '\u{ffff}', '\u{10ffff}']),
         prop::sample::select(vec!['a', '한', 'é']),
@@ -339,7 +342,12 @@ pub fn run(ctx: &Ctx, out: &mut Outcome) {
         let (bin, scratch) = (bin.clone(), scratch.clone());
         search::<Case14>(ctx, out, "short-texts", t.pick(320, 6_000), &short_text, &move |c, st| check(c, st, &bin, &scratch));
     }
-    search::<Case14>(ctx, out, "long-lines", t.pick(32, 300), &long_text, &move |c, st| check(c, st, &bin, &scratch));
+    {
+        let (bin, scratch) = (bin.clone(), scratch.clone());
+        search::<Case14>(ctx, out, "long-lines", t.pick(32, 300), &|| long_text(false), &move |c, st| check(c, st, &bin, &scratch));
+    }
+    // lines beyond 1 MiB / 2 MiB (fixed-count copy only: the loop program would need minutes per configuration)
+    search::<Case14>(ctx, out, "huge-lines", t.pick(4, 24), &|| long_text(true), &move |c, st| check(c, st, &bin, &scratch));
 }
 
 pub fn replay(ctx: &Ctx, v: &Value) -> Result<CheckResult, String> {
